@@ -394,6 +394,26 @@ def c15():
                       y.operation.operation_id, y.start_time, y.machine_id]
                 _eq_event(s, "scheduled_op", x, y, cx, cy)
         traces.append(s.trace())
+    # instances that come out of the library's own factories (generator, dict/JSON, Taillard text) against the same
+    # content built by hand: "independently built objects with the same content"
+    from job_shop_lib import JobShopInstance
+    from job_shop_lib.generation import GeneralInstanceGenerator
+    gen_cfgs = [dict(num_jobs=(2, 3), num_machines=(2, 3), duration_range=(1, 5)),
+                dict(num_jobs=(2, 3), num_machines=3, duration_range=(1, 5), machines_per_operation=(1, 2)),
+                dict(num_jobs=2, num_machines=(3, 4), duration_range=(0, 3), machines_per_operation=2,
+                     allow_recirculation=True)]
+    for gi in range(_n(chk, 12, 120)):
+        g = GeneralInstanceGenerator(**dict(gen_cfgs[gi % len(gen_cfgs)], seed=chk.seed + gi))
+        made = g.generate()
+        ab = model.instance_to_abstract(made)
+        s = dsession.DSession(len(traces) + 1, ab, [], ())
+        by_hand = model.build_instance(ab, name=made.name)
+        _eq_event(s, "instance", made, by_hand, ab, ab)
+        _eq_event(s, "instance", made, JobShopInstance.from_matrices(**json.loads(json.dumps(made.to_dict()))), ab, ab)
+        for (ja, job) in enumerate(made.jobs):
+            for (pa, op) in enumerate(job):
+                _eq_event(s, "op", op, by_hand.jobs[ja][pa], [ab[ja][pa], ja, pa], [ab[ja][pa], ja, pa])
+        traces.append(s.trace())
     chk.monitor(traces, source="equality-pairs", case_key=lambda t: json.dumps(t["inst"]))
     chk.notes["explanation"] = ("a pure relation: the specification contributes Content equality only; pairs come from "
                                 "TLC-generated instances and histories; claimed as exploration")
